@@ -105,7 +105,7 @@ def run(rep, tier):
     F = cx.F
     tab = asmmodel.reference_table()          # documented names (used by R16.p only); resolution goes through the assembler
     root = cx.roles.api("disassembler::to_insn_vec")
-    lm = models.LoopModel(F, root, min_arms=100)
+    lm = models.LoopModel(F, root, min_arms=60)
     pcn, pcid = models.loop_counter_name(F, root)
     ev = symex.Evaluator(F)
     ev.unroll = True
@@ -203,6 +203,17 @@ def run(rep, tier):
                         e = fsub(e)
                         if g != e and not _same_under(g, e, list(conds2)):
                             problems.append("field %s: reassembled %s, original %s" % (fld, _sh(g), _sh(e)))
+                    if d["kind"] == "lddw":
+                        # the wide load's second slot: the printed 64-bit value must give back the upper half the
+                        # program had there (and nothing else in that slot)
+                        if len(insns) != 2:
+                            problems.append("%d slots reassembled for a wide load" % len(insns))
+                        else:
+                            exp2 = {"opc": T.K(8, 0), "dst": T.K(8, 0), "src": T.K(8, 0), "off": T.K(16, 0), "imm": ("v", "next.imm", 32)}
+                            for fld, e in exp2.items():
+                                g = insns[1].get(fld)
+                                if g != e and not _same_under(g, e, list(conds2)):
+                                    problems.append("second slot, field %s: reassembled %s, original %s" % (fld, _sh(g), _sh(e)))
                     n_ok += 1
             if expressible:
                 rep.ob(ra, key, not problems and n_ok > 0, "opcode %#04x%s: disassemble then assemble" % (v, "" if var is None else " (%s)" % var),
@@ -225,7 +236,6 @@ def run(rep, tier):
            expected=["r", "[", "]", ",", "0x", "-+"], found=sorted(x for x in lits if len(x) <= 2))
     rep.trust("rustc front end / typed THIR", "alloc::fmt: `{}` prints decimal, `{:#x}` prints 0x + the two's-complement bit pattern",
               "combine: whitespace handling and the accepted language of the combinators")
-    rep.assume("the second slot of lddw is covered by C13/R13.d and C15/R15.b")
 
 
 def _refused_samples(conds0, ok_conds, d):
